@@ -10,6 +10,7 @@
 -/
 import Asn1.Generated
 import Proofs.StreamIter
+import Proofs.StreamRaw
 
 namespace Asn1.C05
 
@@ -42,6 +43,16 @@ theorem underrun_only_when_missing (k : Kind) (B : Nat) (d : Bytes) (cl : Bool) 
     (s s' : St ε) (h : run k B d cl p s = .susp p' s') :
     d.length < p'.needs s' ∧ cl = false ∧ k ≠ .bytesIO :=
   susp_needs k B d cl p s p' s' h
+
+/-- **short reads are invisible**: `readFromStream` over raw `read()` calls each of which may hand
+    out any non-zero number of the octets that are there (`capOf` arbitrary: pipes, sockets, capped
+    reads) answers exactly as the model's `read n` primitive — the n octets once they have all arrived,
+    an underrun while the stream is open, EndOfStreamError once it is closed.  So the schedule theorem,
+    stated over `read n`, covers every placement of short reads. -/
+theorem short_reads_invisible (k : Kind) (hk : k ≠ .bytesIO) (d : Bytes) (closed : Bool)
+    (capOf : Nat → Nat) (pos n : Nat) (hp : pos ≤ d.length) :
+    readFromStreamRaw d closed capOf pos n = readAns k d closed pos n :=
+  readFromStreamRaw_eq_readAns k hk d closed capOf pos n hp
 
 /-- **no new errors**: an error under a schedule is the error of the complete input -/
 theorem no_new_errors (k : Kind) (hk : k.Stable) (B : Nat) (p : Prog ε α) (hp : p.NoReadAll)
@@ -125,6 +136,11 @@ example : (runSched .wrapped 8192 [] [[0x30, 0x80, 0x02, 0x01, 0x05, 0x00], [0x0
     (streamP {} 7) {}).summary = (.done, 7, [7]) := by decide
 /-- the stream still open in the middle of an element: an underrun, nothing yielded yet -/
 example : (run .seekable 8192 [0x02, 0x01] false (streamP {} 5) {}).summary = (.susp, 2, []) := by decide
+/-- six octets wanted, the raw stream hands out one octet per call: all six come back; only four there
+    and open: underrun; closed: end of stream -/
+example : readFromStreamRaw [1, 2, 3, 4, 5, 6, 7] false (fun _ => 0) 1 6 = .ok [2, 3, 4, 5, 6, 7] := by decide
+example : readFromStreamRaw [1, 2, 3, 4, 5] false (fun _ => 0) 1 6 = .wait := by decide
+example : readFromStreamRaw [1, 2, 3, 4, 5] true (fun i => i % 3) 1 6 = .eos := by decide
 /-- closed there: EndOfStreamError -/
 example : (run .seekable 8192 [0x02, 0x01] true (streamP {} 5) {}).summary = (.err .eos, 2, []) := by decide
 
